@@ -483,3 +483,7 @@ def run(ctx: common.Ctx):
             ctx.violation(f"{r['op']}/{r['dtype']}/{kind}", f"{r['op']}(n{r['dtype']}{r.get('shape')}, {r.get('params', '')}) {mode}: {kind}: {detail}",
                           {"op": r["op"], "dtype": r["dtype"], "shape": r.get("shape"), "mode": mode, "kind": kind, "detail": detail})
     mask_graph_tie(ctx)
+    # through indexing the null flag travels with its element: both fields of a nullable operand go through the same
+    # exported term (mask selection / integer index array; Props/C08MaskGraph.lean, C08IntGraph.lean), each on its own field
+    from .. import scattertie
+    scattertie.run(ctx, 60 if quick else 800, label="null-travel", kinds=("null_travel",))
